@@ -216,3 +216,72 @@ pub fn take_panic() -> String {
         .with(|p| p.borrow_mut().take())
         .unwrap_or_else(|| "<panic>".to_string())
 }
+
+// ---------------------------------------------------------------------
+// which run is executing on this thread (for substrates that kill the
+// process on a finding: ASan, Miri)
+
+thread_local! {
+    static CURRENT_RUN: std::cell::Cell<(u64, u64)> = const { std::cell::Cell::new((0, 0)) };
+}
+static PRINT_INDEX: AtomicBool = AtomicBool::new(false);
+static DEATH_FILE: std::sync::OnceLock<String> = std::sync::OnceLock::new();
+static DEATH_PROP: std::sync::OnceLock<String> = std::sync::OnceLock::new();
+
+pub fn set_print_index(on: bool) {
+    PRINT_INDEX.store(on, Ordering::Relaxed);
+}
+
+pub fn set_current_run(seed: u64, index: u64) {
+    CURRENT_RUN.with(|c| c.set((seed, index)));
+    if PRINT_INDEX.load(Ordering::Relaxed) {
+        println!("run {}", index);
+    }
+}
+
+#[cfg(feature = "asan")]
+extern "C" {
+    fn __sanitizer_set_death_callback(cb: Option<unsafe extern "C" fn()>);
+}
+
+#[cfg(feature = "asan")]
+unsafe extern "C" fn on_death() {
+    let (seed, index) = CURRENT_RUN.with(|c| c.get());
+    if let (Some(f), Some(p)) = (DEATH_FILE.get(), DEATH_PROP.get()) {
+        let _ = std::fs::write(f, format!("{} {} {}\n", p, seed, index));
+    }
+}
+
+/// Under ASan: when the sanitizer kills the process, leave a note saying
+/// which run of which property was executing on the faulting thread.
+pub fn install_death_note(prop: &str, file: Option<String>) {
+    let _ = DEATH_PROP.set(prop.to_string());
+    if let Some(f) = file {
+        let _ = DEATH_FILE.set(f);
+    }
+    #[cfg(feature = "asan")]
+    unsafe {
+        __sanitizer_set_death_callback(Some(on_death));
+    }
+}
+
+// ---------------------------------------------------------------------
+// optional per-call log (trace command only)
+
+static LOG_CALLS: AtomicBool = AtomicBool::new(false);
+thread_local! {
+    static CALL_LOG: RefCell<Vec<String>> = const { RefCell::new(Vec::new()) };
+}
+pub fn set_log_calls(on: bool) {
+    LOG_CALLS.store(on, Ordering::Relaxed);
+}
+#[inline]
+pub fn log_calls() -> bool {
+    LOG_CALLS.load(Ordering::Relaxed)
+}
+pub fn log_call(s: String) {
+    CALL_LOG.with(|l| l.borrow_mut().push(s));
+}
+pub fn take_call_log() -> Vec<String> {
+    CALL_LOG.with(|l| std::mem::take(&mut *l.borrow_mut()))
+}
